@@ -453,7 +453,7 @@ ClsPolSend(c) ==
 
 \* async: a send that found the slot free completes (possibly observed late)
 ClsPolLate(c) ==
-    /\ cli[c].pc = "cls_pol_wait" /\ Flavor = "async" /\ pol.alive /\ pol.q = 0
+    /\ cli[c].pc = "cls_pol_wait" /\ Flavor = "async" /\ ((pol.alive /\ pol.q = 0) \/ ~pol.alive)
     /\ pol' = [pol EXCEPT !.q = 1]
     /\ cli' = [cli EXCEPT ![c].pc = "cls_pol_done"]
     /\ NoRes /\ NoCb /\ UNCH_store /\ UNCH_pol /\ UNCH_chan /\ UNCH_ghost
@@ -461,8 +461,10 @@ ClsPolLate(c) ==
     /\ UNCH_kf
     /\ UNCHANGED gh
 
+\* (also when the processor has just taken the previous stop message: the woken sender may get its own
+\* message into the slot before the exiting processor closes the channel -- it then never is consumed)
 ClsStopLate(c) ==
-    /\ cli[c].pc = "cls_stop_wait" /\ Flavor = "async" /\ ProcAlive /\ stopQ = 0
+    /\ cli[c].pc = "cls_stop_wait" /\ Flavor = "async" /\ ((ProcAlive /\ stopQ = 0) \/ ~ProcAlive)
     /\ stopQ' = 1
     /\ cli' = [cli EXCEPT ![c].pc = "cls_pol"]
     /\ NoRes /\ NoCb /\ UNCH_store /\ UNCH_pol /\ UNCH_life /\ UNCH_ghost
